@@ -72,6 +72,8 @@ type l0Machine struct {
 	steps   int
 	hist    []string
 	applied map[int]int // replica -> number of own buffer ops already linked to log
+	// script: actions queued by a scripted scenario (see scriptBatchUpdateVsDelete); they run before anything is drawn
+	script []func(rt *rapid.T) *l0Action
 }
 
 func newL0Machine(cfg l0Config) *l0Machine {
@@ -550,10 +552,80 @@ func (m *l0Machine) docView(r int) interface{} {
 	return sim.Normalize(m.w.Reps[r].DT.(orda.Document).GetValue())
 }
 
+// scriptBatchUpdateVsDelete queues: everybody in sync; replica a updates two or three neighbouring elements of an
+// array with NESTED values in one call while replica b, concurrently, deletes the first of them; everybody in sync;
+// then a call addressed to what the update put into the following slot (by path, i.e. by identity on the wire).
+func (m *l0Machine) scriptBatchUpdateVsDelete(rt *rapid.T, a, b int) {
+	var path []sim.Step
+	pos := -1
+	m.script = []func(rt *rapid.T) *l0Action{
+		func(rt *rapid.T) *l0Action { return &l0Action{K: "quiesce"} },
+		func(rt *rapid.T) *l0Action {
+			var cands []containerRef
+			for _, c := range containersOf(m.docView(a)) {
+				if c.isArr && c.size >= 2 {
+					cands = append(cands, c)
+				}
+			}
+			if len(cands) == 0 {
+				m.script = nil
+				return nil
+			}
+			c := cands[rapid.IntRange(0, len(cands)-1).Draw(rt, "s.arr")]
+			path, pos = c.path, rapid.IntRange(0, c.size-2).Draw(rt, "s.pos")
+			vals := []sim.Val{m.nestedVal(rt, "s.v0"), m.nestedVal(rt, "s.v1")}
+			if pos+3 <= c.size && rapid.Bool().Draw(rt, "s.three") {
+				vals = append(vals, m.nestedVal(rt, "s.v2"))
+			}
+			m.labels["script:batch-update-of-nested-values-vs-concurrent-delete"] = true
+			call := sim.Call{M: "UpdateManyInArray", Path: path, Pos: pos, Vals: vals}
+			return &l0Action{K: "local", R: a, Call: &call}
+		},
+		func(rt *rapid.T) *l0Action {
+			call := sim.Call{M: "DeleteInArray", Path: path, Pos: pos}
+			return &l0Action{K: "local", R: b, Call: &call}
+		},
+		func(rt *rapid.T) *l0Action { return &l0Action{K: "quiesce"} },
+		func(rt *rapid.T) *l0Action {
+			who := a
+			if rapid.Bool().Draw(rt, "s.who") {
+				who = b
+			}
+			at := append(append([]sim.Step{}, path...), sim.IStep(pos))
+			var call sim.Call
+			switch lookupPath(m.docView(who), at).(type) {
+			case map[string]interface{}:
+				call = sim.Call{M: "PutToObject", Path: at, Key: "z", Vals: []sim.Val{sim.S("after")}}
+			case []interface{}:
+				call = sim.Call{M: "InsertToArray", Path: at, Pos: 0, Vals: []sim.Val{sim.S("after")}}
+			default:
+				return nil
+			}
+			return &l0Action{K: "local", R: who, Call: &call}
+		},
+		func(rt *rapid.T) *l0Action { return &l0Action{K: "quiesce"} },
+	}
+}
+
 func (m *l0Machine) gen(rt *rapid.T) l0Action {
+	for len(m.script) > 0 {
+		f := m.script[0]
+		m.script = m.script[1:]
+		if a := f(rt); a != nil {
+			return *a
+		}
+	}
 	n := len(m.w.Reps)
 	r := rapid.IntRange(0, n-1).Draw(rt, "replica")
 	c := rapid.IntRange(0, 99).Draw(rt, "action")
+	if m.cfg.Kind == sim.Document && !m.cfg.Tagged && n >= 2 && rapid.IntRange(0, 11).Draw(rt, "scripted") == 0 {
+		b := rapid.IntRange(0, n-2).Draw(rt, "s.other")
+		if b >= r {
+			b++
+		}
+		m.scriptBatchUpdateVsDelete(rt, r, b)
+		return m.gen(rt)
+	}
 	if m.cfg.WideFirst && m.steps < m.cfg.Replicas && m.steps < n {
 		r = m.steps
 		k := rapid.IntRange(11, 25).Draw(rt, "wide")
